@@ -2214,6 +2214,13 @@ func (a *Authenticator) handleClientAuthentication(ctx context.Context, negotiat
 			break
 		}
 
+		// The server may only choose among the methods offered in this round. A
+		// selection containing any other bit (e.g. CLAIMTOBE when only TOKEN was
+		// offered) is a protocol violation, not something to act on.
+		if serverResponse&^availableBitmask != 0 {
+			return fmt.Errorf("server selected authentication method bitmask 0x%x outside the offered set 0x%x", serverResponse, availableBitmask)
+		}
+
 		// Convert server response to method
 		selectedMethod := bitmaskToAuthMethod(serverResponse)
 		if selectedMethod == "" {
